@@ -24,4 +24,49 @@ CHECKS = {
              "reach": {"VerifH_C06_Parsers": ["parsed", "publish-parsed"], "VerifH_C06_ReadPacket": ["returned"], "VerifH_C06_Serve": ["served"], "VerifH_C06_Connect": ["done"]}},
         ],
     },
+    "C04": {
+        "groups": [
+            {"name": "c04-serve", "files": ["h_c04.go"], "harnesses": ["VerifH_C04_Inbound"],
+             "flags": {"quick": [P(maxpackets=3)], "thorough": [P(maxpackets=5)]},
+             "reach": {"VerifH_C04_Inbound": ["served", "pubrel-known"]}},
+        ],
+        "assumptions": ["packets arrive on one connection; the handler returns"],
+    },
+    "C08": {
+        "groups": [
+            {"name": "c08-applyto", "files": ["h_c08.go"], "harnesses": ["VerifH_C08_ApplyTo"],
+             "flags": {"quick": [P(maxcalls=3)], "thorough": [P(maxcalls=4)]},
+             "reach": {"VerifH_C08_ApplyTo": ["applied"]}},
+        ],
+    },
+    "C14": {
+        "groups": [
+            {"name": "c14", "files": ["h_c14.go"], "harnesses": ["VerifH_C14_Filter", "VerifH_C14_Mux"],
+             "flags": {"quick": [P(maxf=3, maxt=3, maxfilters=2, maxmf=2, maxmt=2)],
+                       "thorough": [P(maxf=5, maxt=4, maxfilters=3, maxmf=2, maxmt=3)]},
+             "reach": {"VerifH_C14_Filter": ["matched", "rejected"], "VerifH_C14_Mux": ["served"]}},
+        ],
+        "assumptions": ["filter bytes over {/,+,#,a,b}, topic bytes over {/,a,b} (the code compares other bytes only for equality)"],
+    },
+    "C15": {
+        "groups": [
+            {"name": "c15-seq", "files": ["h_c15.go"], "harnesses": ["VerifH_C15_NewID", "VerifH_C15_CycleLemma", "VerifH_C15_PresetID"],
+             "flags": {"quick": [P(calls=8)], "thorough": [P(calls=16)]},
+             "reach": {"VerifH_C15_NewID": ["ids"], "VerifH_C15_CycleLemma": ["lemma"], "VerifH_C15_PresetID": ["written"]}},
+        ],
+    },
+    "C19": {
+        "groups": [
+            {"name": "c19", "files": ["h_c19.go"], "harnesses": ["VerifH_C19_Chain", "VerifH_C19_Timeout"],
+             "flags": {"quick": [P(maxdepth=3)], "thorough": [P(maxdepth=5)]},
+             "reach": {"VerifH_C19_Chain": ["built"], "VerifH_C19_Timeout": ["expired"]}},
+        ],
+    },
+    "C20": {
+        "groups": [
+            {"name": "c20", "files": ["h_c14.go", "h_c20.go"], "harnesses": ["VerifH_C20_Mux", "VerifH_C20_Async"],
+             "flags": {"quick": ["-delays=1"], "thorough": ["-delays=2"]}, "concurrent": False,
+             "reach": {"VerifH_C20_Mux": ["served"], "VerifH_C20_Async": ["async-ran"]}},
+        ],
+    },
 }
